@@ -22,6 +22,9 @@ type CaseGraph struct {
 	Input    any        `json:"input"`
 	Paradigm string     `json:"paradigm"` // invoke | stream
 	CallMax  int        `json:"callmax,omitempty"`
+	// Prior (C01 only): inputs of earlier runs on the same compiled runnable; each is judged like the main
+	// run (a run must not depend on what earlier runs - failed ones included - left behind)
+	Prior []any `json:"prior,omitempty"`
 }
 
 func genC01(t *rapid.T) CaseGraph {
@@ -43,6 +46,11 @@ func genC01(t *rapid.T) CaseGraph {
 	}
 	if mode == "pregel" && rapid.IntRange(0, 5).Draw(t, "callMax") == 0 {
 		c.CallMax = rapid.IntRange(1, len(c.Spec.Nodes)+4).Draw(t, "callMaxV")
+	}
+	if rapid.IntRange(0, 2).Draw(t, "withPrior") == 0 {
+		for i := rapid.IntRange(1, 3).Draw(t, "nPrior"); i > 0; i-- {
+			c.Prior = append(c.Prior, gkit.GenInput(t, c.Spec.In))
+		}
 	}
 	return c
 }
@@ -115,7 +123,37 @@ func runSpec(ctx context.Context, r *gkit.Runner, env *gkit.CallEnv, c CaseGraph
 }
 
 func checkC01(c CaseGraph) (*vkit.Failure, vkit.Meta) {
-	f, m, ref := checkRef(c, nil)
+	var r *gkit.Runner
+	priorFailed := false
+	if len(c.Prior) > 0 && c.Spec != nil {
+		var err error
+		r, err = gkit.Compile(context.Background(), c.Spec, nil)
+		if err != nil {
+			return vkit.Failf("compile-rejected-wellformed-graph", "Compile failed on a well-typed generated graph: %v", err), vkit.Meta{}
+		}
+		for i, p := range c.Prior {
+			pc := c
+			pc.Input, pc.Prior = p, nil
+			if i%2 == 1 {
+				pc.Paradigm = "invoke"
+			}
+			pf, _, pref := checkRef(pc, r)
+			if pf != nil {
+				pf.Msg = fmt.Sprintf("run %d of %d on one compiled runnable (input %s): %s", i+1, len(c.Prior)+1, gkit.Canon(p), pf.Msg)
+				return pf, vkit.Meta{}
+			}
+			if pref != nil && pref.Fail != "" {
+				priorFailed = true
+			}
+		}
+	}
+	f, m, ref := checkRef(c, r)
+	if f != nil && len(c.Prior) > 0 {
+		f.Msg = fmt.Sprintf("run %d of %d on one compiled runnable: %s", len(c.Prior)+1, len(c.Prior)+1, f.Msg)
+	}
+	if priorFailed {
+		m.Labels = append(m.Labels, "earlier-run-on-same-runnable-failed")
+	}
 	if ref != nil {
 		chainStruct := false
 		for _, st := range c.Spec.Stages {
